@@ -48,7 +48,7 @@ func bareConfigs(n int) []*core.RuntimeConfig {
 }
 
 func c16(r *ev.Reporter, _ []string) {
-	r.Rule = "stateless schemes: n in 1..64 x views {0..V} + 64 views around 2^32, 2^63, 2^64-1, every replica's own instance; carousel/reputation: all (head signer set >= quorum, last-f proposers, seed, query views) for n in {4,7} and all head sequences of length <=L; distinct = distinct (scheme,n,input)"
+	r.Rule = "stateless schemes: n in 1..64 x views {0..V} + 64 views around 2^32, 2^63, 2^64-1, every replica's own instance; carousel/reputation: all (head signer set >= quorum, last-f proposers, seed, query views) for n in {4,7,10} and all head sequences of length <=L; carousel history independence: all sequences of <=5 operations {commit next block, ask one of three views} on a long-lived instance vs. an instance created at that moment; distinct = distinct (scheme,n,input)"
 	views := c16Views(r.Quick())
 	// (a) stateless schemes
 	for n := 1; n <= 64; n++ {
@@ -232,20 +232,119 @@ func c16History(r *ev.Reporter, n int) {
 	for _, seed := range seeds {
 		recP(0, func() {
 			for _, set := range sets {
-				inst, c := mk(seed, 2)
+				inst, c := mk(seed, 4)
 				// build chain: b1 <- b2 ... each certified by `set` (only the head's matters)
 				parent := hotstuff.GetGenesis()
 				qc := fix.GenesisQC()
-				var head *hotstuff.Block
+				var head, below *hotstuff.Block
 				for k := 0; k < nprop; k++ {
 					b := hotstuff.NewBlock(parent.Hash(), qc, fix.Batch(), hotstuff.View(k+1), props[k])
 					c.StoreAll(b)
 					qc = fakeQC(b, set)
+					below = head
 					parent, head = b, b
+				}
+				// The leader of a view is a function of (view, committed chain): instance 2 has been asked
+				// about the same views while its committed head was still genesis and then the head's
+				// parent (a replica that looked ahead before the commit arrived); instance 3 is asked in
+				// descending order, every view twice. Both must answer like the fresh instances 0 and 1.
+				// (the view whose answer the commit changes is asked last before and first after it)
+				prequery := func(in rotInst) {
+					for _, dv := range []int{-2, -1, 1, 2, 3, 0} {
+						in.car.GetLeader(hotstuff.View(int(head.View()) + chainLen + dv))
+					}
+				}
+				if p := safely(func() {
+					prequery(inst[2])
+					if below != nil {
+						inst[2].vs.UpdateCommittedBlock(below)
+						prequery(inst[2])
+					}
+				}); p != nil {
+					r.Violation(fmt.Sprintf("carousel panic n=%d", n), fmt.Sprintf("n=%d seed=%d proposers=%v headQCsigners=%v (queries before the head was committed): %v", n, seed, props, set, p), nil)
 				}
 				// head's embedded QC certifies its parent; carousel reads head.QuorumCert().Signature()
 				for _, in := range inst {
 					in.vs.UpdateCommittedBlock(head)
+				}
+				// every sequence of up to 5 operations {commit the next block of the chain, ask about view
+				// head+chainLen-1 / +0 / +1} on one long-lived instance: each answer must equal the answer
+				// of an instance created at that moment (no dependence on earlier queries or commits)
+				if n <= 7 {
+					chain := []*hotstuff.Block{}
+					for b := head; b != nil && b.View() > 0; {
+						chain = append([]*hotstuff.Block{b}, chain...)
+						pb, ok := c.Chains[0].LocalGet(b.Parent())
+						if !ok {
+							break
+						}
+						b = pb
+					}
+					depth := 5
+					if n > 4 {
+						depth = 4
+					}
+					ops := make([]int, 0, depth)
+					var rec func()
+					rec = func() {
+						if len(ops) == depth {
+							vs, err := protocol.NewViewStates(c.Chains[0], c.Auths[0])
+							if err != nil {
+								panic(err)
+							}
+							lg := &fix.NopLogger{}
+							long := leaderrotation.NewCarousel(chainLen, c.Chains[0], vs, c.Cfgs[0], lg)
+							next := 0
+							for i, op := range ops {
+								if op == 0 {
+									if next < len(chain) {
+										vs.UpdateCommittedBlock(chain[next])
+										next++
+									}
+									continue
+								}
+								v := hotstuff.View(int(head.View()) + chainLen + op - 2)
+								var got, want hotstuff.ID
+								if p := safely(func() {
+									got = long.GetLeader(v)
+									want = leaderrotation.NewCarousel(chainLen, c.Chains[0], vs, c.Cfgs[0], lg).GetLeader(v)
+								}); p != nil {
+									r.Violation(fmt.Sprintf("carousel panic n=%d", n), fmt.Sprintf("n=%d seed=%d proposers=%v headQCsigners=%v ops %v: %v", n, seed, props, set, ops[:i+1], p), nil)
+									break
+								}
+								r.Transitions++
+								if got != want {
+									r.Violation(fmt.Sprintf("carousel answer depends on history n=%d", n), fmt.Sprintf("n=%d seed=%d proposers=%v headQCsigners=%v, ops %v (0=commit next block, 1..3 = ask view head+%d-1..+1): long-lived instance answers %d for view %d, a fresh instance %d", n, seed, props, set, ops[:i+1], chainLen, got, v, want), nil)
+									break
+								}
+							}
+							r.Evaluations++
+							return
+						}
+						for op := 0; op < 4; op++ {
+							ops = append(ops, op)
+							rec()
+							ops = ops[:len(ops)-1]
+						}
+					}
+					rec()
+				}
+				hist := map[hotstuff.View][2]hotstuff.ID{}
+				if p := safely(func() {
+					first := inst[2].car.GetLeader(head.View() + chainLen)
+					for dv := 3; dv >= -2; dv-- {
+						v := hotstuff.View(int(head.View()) + chainLen + dv)
+						x := inst[3].car.GetLeader(v)
+						if y := inst[3].car.GetLeader(v); y != x {
+							r.Violation(fmt.Sprintf("carousel repeated query n=%d", n), fmt.Sprintf("n=%d seed=%d proposers=%v headQCsigners=%v view=%d: %d then %d", n, seed, props, set, v, x, y), nil)
+						}
+						hist[v] = [2]hotstuff.ID{inst[2].car.GetLeader(v), x}
+						if dv == 0 && hist[v][0] != first {
+							hist[v] = [2]hotstuff.ID{first, x}
+						}
+					}
+				}); p != nil {
+					r.Violation(fmt.Sprintf("carousel panic n=%d", n), fmt.Sprintf("n=%d seed=%d proposers=%v headQCsigners=%v (descending / repeated queries): %v", n, seed, props, set, p), nil)
 				}
 				lastAuthors := map[hotstuff.ID]bool{}
 				for k := 0; k < f && k < nprop; k++ {
@@ -271,6 +370,10 @@ func c16History(r *ev.Reporter, n int) {
 					if a != b {
 						r.Violation(fmt.Sprintf("carousel disagreement n=%d", n), desc+fmt.Sprintf(": %d vs %d", a, b), map[string]any{"case": desc})
 					}
+					if h, ok := hist[v]; ok && (h[0] != a || h[1] != a) {
+						r.Violation(fmt.Sprintf("carousel answer depends on earlier queries n=%d", n), desc+fmt.Sprintf(": fresh instance %d, instance asked before the commit %d, instance asked in descending order %d", a, h[0], h[1]), map[string]any{"case": desc})
+					}
+					r.Transitions += 3
 					if a < 1 || int(a) > n {
 						r.Violation(fmt.Sprintf("carousel unknown replica n=%d", n), desc+fmt.Sprintf(": %d", a), map[string]any{"case": desc})
 					}
